@@ -106,6 +106,7 @@ func (b *Board) MakeMove(m move.Move) Reverse {
 
 	piece := b.SquaresToPiece[m.From()]
 	canEnPassant := piece == Pawn && Abs(m.From()-m.To()) == 16 && b.CanEnPassant(m.To())
+	epHashed := b.epCapturable() // a target loaded from FEN might not be part of the hash
 	captureSq := b.CaptureSq(m)
 	capture := b.SquaresToPiece[captureSq]
 
@@ -136,7 +137,7 @@ func (b *Board) MakeMove(m move.Move) Reverse {
 	hash ^= b.removePiece(b.STM, piece, m.From())
 	hash ^= b.addPiece(b.STM, putPiece, m.To())
 
-	if b.EnPassant != 0 {
+	if epHashed {
 		hash ^= epFileRand[b.EnPassant.File()] // remove old enPassant
 	}
 
@@ -287,7 +288,9 @@ func (b *Board) MakeNullMove() Reverse {
 
 	if b.EnPassant != 0 {
 		r.setEnPassantChange(b.EnPassant)
-		hash ^= epFileRand[b.EnPassant.File()]
+		if b.epCapturable() {
+			hash ^= epFileRand[b.EnPassant.File()]
+		}
 		b.EnPassant = 0
 	}
 
